@@ -223,6 +223,17 @@ theorem kind_action {L : Nat} {fam c : Nat} {b : Bool} (ht : Term cx L c) (hc : 
   ⟨fun a m env st hin hrem => ht a m { env with fam := fam } st hin hrem,
    fun hb n a m env st r h hok => hc hb n a m { env with fam := fam } st r h hok⟩
 
+theorem kind_state {L : Nat} {d : Bool} {c : Nat} {b : Bool} (ht : Term cx L c) (hc : b = true → Cons cx c) :
+    BodyTerm cx L (.state d c) ∧ (b = true → BodyAdv cx (.state d c)) := by
+  constructor
+  · intro a m env st hin hrem
+    obtain ⟨n, r, h⟩ := ht a m { env with sd := env.sd + 1 } st hin hrem
+    exact ⟨n, by simp only [body, h, Option.map_some]; exact ⟨_, rfl⟩⟩
+  · intro hb n a m env st r h hok
+    simp only [body, Option.map_eq_some_iff] at h
+    obtain ⟨r0, h0, rfl⟩ := h
+    simpa using hc hb n a m { env with sd := env.sd + 1 } st r0 h0 (by simpa using hok)
+
 theorem kind_raise (L : Nat) (t : Nat) : BodyTerm cx L (.raise t) ∧ BodyAdv cx (.raise t) := by
   constructor
   · intro a m env st _ _
@@ -767,27 +778,33 @@ theorem nofail_of_body {i : Nat}
       simp only [Option.map_eq_some_iff] at hr
       obtain ⟨r0, h0, rfl⟩ := hr
       simp only [bracket_res]
-      have core : ∀ a st r, nodeCore cx (run cx n) n i nd a m env st = some r → r.res ≠ .fail := by
-        intro a st r hc
+      have core : ∀ a ee st r, nodeCore cx (run cx n) n i nd a m ee st = some r → r.res ≠ .fail := by
+        intro a ee st r hc
         simp only [nodeCore, hctl, Bool.not_false, if_true] at hc
-        exact hb n a m env st r hc
+        exact hb n a m ee st r hc
       split at h0
-      · exact core _ _ _ h0
+      · exact core _ _ _ _ h0
       · exact ih _ _ _ _ _ h0
-      · exact core _ _ _ h0
-      · exact core _ _ _ h0
+      · exact core _ _ _ _ h0
+      · exact core _ _ _ _ h0
       · unfold limitDepthCall at h0
         split at h0
         · simp only [Option.some.injEq] at h0; subst h0; simp
         · simp only [Option.map_eq_some_iff] at h0
           obtain ⟨r1, h1, rfl⟩ := h0
-          simpa using core _ _ _ h1
+          simpa using core _ _ _ _ h1
       · unfold limitBytesCall at h0
         simp only [Option.map_eq_some_iff] at h0
         obtain ⟨r1, h1, rfl⟩ := h0
         split
         · simp
-        · simpa using core _ _ _ h1
+        · simpa using core _ _ _ _ h1
+      · simp only [Option.map_eq_some_iff] at h0
+        obtain ⟨r1, h1, rfl⟩ := h0
+        simpa using core _ _ _ _ h1
+      · simp only [Option.map_eq_some_iff] at h0
+        obtain ⟨r1, h1, rfl⟩ := h0
+        simpa using ih _ _ _ _ _ h1
 
 theorem body_must_nofail {c : Nat} {n : Nat} {a : AMode} {m : RMode} {env : Env} {st : St} {r : Ret}
     (h : body cx (run cx n) n (.must c) a m env st = some r) : r.res ≠ .fail := by
